@@ -177,8 +177,15 @@ static void check_split(const Stream &st, const Outcome &whole, const std::strin
   if (!o.exc.empty()) { viol(exc_sig(o.exc) + "-on-split-stream", case_text(st.data, cuts, ncuts) + " => " + o.str()); return; }
   if (o.reqs == whole.reqs && o.fail == whole.fail && o.rest == whole.rest) return;
   g_split_diff++;
-  bool in_method = false; std::string zones;
-  for (int i = 0; i < ncuts; i++) { const char *z = zone_of(st, cuts[i]); if (!strcmp(z, "inside-method-token")) in_method = true; if (i) zones += ","; zones += z; }
+  // attribute the difference to the cut(s) that reproduce it on their own (keeps the signature specific and the signature set small)
+  bool in_method = false; std::string zones; std::set<std::string> zs, all;
+  for (int i = 0; i < ncuts; i++) {
+    const char *z = zone_of(st, cuts[i]); all.insert(z);
+    if (ncuts > 1) { Outcome o1 = feed(st.data, &cuts[i], 1); if (o1.reqs == whole.reqs && o1.fail == whole.fail && o1.rest == whole.rest && o1.exc.empty()) continue; }
+    zs.insert(z); if (!strcmp(z, "inside-method-token")) in_method = true;
+  }
+  if (zs.empty()) { zones = "only-in-combination:"; zs = all; }
+  for (auto &z : zs) { if (zones.size() && zones.back() != ':') zones += "+"; zones += z; }
   std::string sig;
   if (o.fail && !whole.fail) sig = in_method ? "parser-split-inside-method-token-fails" : "parser-split-fails-cut-" + zones;
   else sig = "parser-split-changes-request-sequence-cut-" + zones;
@@ -193,15 +200,9 @@ static void sweep_stream(const Stream &st, int maxcuts, bool uniform_all) {
     viol("parser-unsplit-well-formed-stream-misparsed", case_text(st.data, nullptr, 0) + " => " + wholes + " ;; expected " + st.expect);
   outcome(std::to_string(whole.nreq) + " request(s) parsed from the unsplit stream");
   size_t L = st.data.size(); size_t c[4];
-  for (c[0] = 1; c[0] < L; c[0]++) {
-    check_split(st, whole, wholes, c, 1);
-    if (maxcuts < 2) continue;
-    for (c[1] = c[0] + 1; c[1] < L; c[1]++) {
-      check_split(st, whole, wholes, c, 2);
-      if (maxcuts < 3) continue;
-      for (c[2] = c[1] + 1; c[2] < L; c[2]++) check_split(st, whole, wholes, c, 3);
-    }
-  }
+  for (c[0] = 1; c[0] < L; c[0]++) check_split(st, whole, wholes, c, 1);                                        // every 1-cut split first (smallest replays)
+  if (maxcuts >= 2) for (c[0] = 1; c[0] < L; c[0]++) for (c[1] = c[0] + 1; c[1] < L; c[1]++) check_split(st, whole, wholes, c, 2);
+  if (maxcuts >= 3) for (c[0] = 1; c[0] < L; c[0]++) for (c[1] = c[0] + 1; c[1] < L; c[1]++) for (c[2] = c[1] + 1; c[2] < L; c[2]++) check_split(st, whole, wholes, c, 3);
   // uniform chunking: every chunk size k (k = 1 is the byte-by-byte feed)
   std::vector<size_t> cuts;
   for (size_t k = 1; k < L && (uniform_all || k <= 3); k++) {
@@ -350,10 +351,11 @@ static std::vector<Mut> mutations() {
 }
 
 static int run_mut(long shard, long nshards, double deadline) {
-  auto ms = mutations(); long execs = 0, distinct = 0, work = 0; int samples = 0; (void)deadline;
+  auto ms = mutations(); long execs = 0, distinct = 0, work = 0; int samples = 0;
   std::string second = "GET /next HTTP/1.1\r\nContent-Length: 0\r\n\r\n";
   for (auto &m : ms) {
     if ((work++ % nshards) != shard) continue;
+    if (hx::now_s() > deadline) { printf("@CAP mut shard %ld: deadline reached after %ld inputs\n", shard, distinct); break; }
     for (int variant = 0; variant < 3; variant++) {      // alone; followed by a valid request; preceded by a valid request
       std::string data = variant == 0 ? m.data : variant == 1 ? m.data + second : second + m.data; distinct++;
       std::string mode = "mut[" + m.name + (variant == 1 ? "+valid-request-after" : variant == 2 ? "+valid-request-before" : "") + "]";
